@@ -258,3 +258,35 @@ Print Assumptions C02_phantom_needs_unproductive.
 Theorem C02_phantom_item_costs_determinism_refuted : phantom_item_costs_determinism_refuted_stmt.
 Proof. exact phantom_item_costs_determinism_refuted. Qed.
 Print Assumptions C02_phantom_item_costs_determinism_refuted.
+
+(* last clause, "never more states than the canonical automaton" (CountSpec.v): the full statement
+   [pager_states_le_canonical_stmt] is stated there and NOT proved; proved parts: *)
+From GV Require Import C02.CountSpec C02.CountProofs.
+
+Theorem C02_live_state_covers_canonical : live_state_covers_canonical_stmt.
+Proof. exact live_state_covers_canonical. Qed.
+Print Assumptions C02_live_state_covers_canonical.
+
+Theorem C02_pager_run_complete : pager_run_complete_stmt.
+Proof. exact pager_run_complete. Qed.
+Print Assumptions C02_pager_run_complete.
+
+Theorem C02_pg_run_deterministic : pg_run_deterministic_stmt.
+Proof. exact pg_run_deterministic. Qed.
+Print Assumptions C02_pg_run_deterministic.
+
+Theorem C02_state_has_viable_path : state_has_viable_path_stmt.
+Proof. exact state_has_viable_path. Qed.
+Print Assumptions C02_state_has_viable_path.
+
+Theorem C02_pager_states_le_canonical_partial : pager_states_le_canonical_partial_stmt.
+Proof. exact pager_states_le_canonical_partial. Qed.
+Print Assumptions C02_pager_states_le_canonical_partial.
+
+Theorem C02_distinct_cores_path_function : distinct_cores_path_function_stmt.
+Proof. exact distinct_cores_path_function. Qed.
+Print Assumptions C02_distinct_cores_path_function.
+
+Theorem C02_pager_states_le_canonical_distinct_cores : pager_states_le_canonical_distinct_cores_stmt.
+Proof. exact pager_states_le_canonical_distinct_cores. Qed.
+Print Assumptions C02_pager_states_le_canonical_distinct_cores.
